@@ -18,22 +18,49 @@ fn hop(a: &A, b: &A) -> SwapOperation {
     SwapOperation::TerraSwap { offer_asset_info: a.info(), ask_asset_info: b.info() }
 }
 
-fn set_flags(f: &mut Full, target: &str, d: bool, w: bool, t: bool) -> Res {
+/// Sets the three switches of `target` as the operator would. `mode` 0: one update naming all three; 1 and 2: one
+/// update per switch (the others left unnamed), in two different orders. Every mode ends with an unrelated
+/// configuration update that names no switch (the fee collector is set to what it already is): a switch must keep
+/// its value through updates that do not name it.
+fn set_flags(f: &mut Full, target: &str, d: bool, w: bool, t: bool, mode: u64) -> Res {
     let owner = f.owner.clone();
+    let collector = f.hub.collector.to_string();
     match target {
         "pair1" | "pair2" => {
             let pair = if target == "pair1" { f.pair1.clone() } else { f.pair2.clone() };
-            f.w.exec(&owner, &f.hub.pool_factory.clone(), &white_whale_std::pool_network::factory::ExecuteMsg::UpdatePairConfig {
+            let r = f.w.exec(&owner, &f.hub.pool_factory.clone(), &white_whale_std::pool_network::factory::ExecuteMsg::UpdatePairConfig {
                 pair_addr: pair.to_string(), owner: None, fee_collector_addr: None, pool_fees: None,
-                feature_toggle: Some(FeatureToggle { withdrawals_enabled: w, deposits_enabled: d, swaps_enabled: t }) }, &[])
+                feature_toggle: Some(FeatureToggle { withdrawals_enabled: w, deposits_enabled: d, swaps_enabled: t }) }, &[]);
+            if !r.is_ok() { return r; }
+            f.w.exec(&owner, &f.hub.pool_factory.clone(), &white_whale_std::pool_network::factory::ExecuteMsg::UpdatePairConfig {
+                pair_addr: pair.to_string(), owner: None, fee_collector_addr: Some(collector), pool_fees: None, feature_toggle: None }, &[])
         }
-        "trio" => f.w.exec(&owner, &f.hub.pool_factory.clone(), &white_whale_std::pool_network::factory::ExecuteMsg::UpdateTrioConfig {
-            trio_addr: f.trio.to_string(), owner: None, fee_collector_addr: None, pool_fees: None, amp_factor: None,
-            feature_toggle: Some(white_whale_std::pool_network::trio::FeatureToggle { withdrawals_enabled: w, deposits_enabled: d, swaps_enabled: t }) }, &[]),
-        _ => f.w.exec(&owner, &f.hub.vault_factory.clone(), &white_whale_std::vault_network::vault_factory::ExecuteMsg::UpdateVaultConfig {
-            vault_addr: f.vault.to_string(),
-            params: UpdateConfigParams { flash_loan_enabled: Some(t), deposit_enabled: Some(d), withdraw_enabled: Some(w),
-                new_owner: None, new_vault_fees: None, new_fee_collector_addr: None } }, &[]),
+        "trio" => {
+            let r = f.w.exec(&owner, &f.hub.pool_factory.clone(), &white_whale_std::pool_network::factory::ExecuteMsg::UpdateTrioConfig {
+                trio_addr: f.trio.to_string(), owner: None, fee_collector_addr: None, pool_fees: None, amp_factor: None,
+                feature_toggle: Some(white_whale_std::pool_network::trio::FeatureToggle { withdrawals_enabled: w, deposits_enabled: d, swaps_enabled: t }) }, &[]);
+            if !r.is_ok() { return r; }
+            f.w.exec(&owner, &f.hub.pool_factory.clone(), &white_whale_std::pool_network::factory::ExecuteMsg::UpdateTrioConfig {
+                trio_addr: f.trio.to_string(), owner: None, fee_collector_addr: Some(collector), pool_fees: None, amp_factor: None, feature_toggle: None }, &[])
+        }
+        _ => {
+            let upd = |f: &mut Full, fl: Option<bool>, de: Option<bool>, wi: Option<bool>, col: Option<String>| -> Res {
+                f.w.exec(&owner, &f.hub.vault_factory.clone(), &white_whale_std::vault_network::vault_factory::ExecuteMsg::UpdateVaultConfig {
+                    vault_addr: f.vault.to_string(),
+                    params: UpdateConfigParams { flash_loan_enabled: fl, deposit_enabled: de, withdraw_enabled: wi,
+                        new_owner: None, new_vault_fees: None, new_fee_collector_addr: col } }, &[])
+            };
+            let steps: Vec<(Option<bool>, Option<bool>, Option<bool>)> = match mode % 3 {
+                0 => vec![(Some(t), Some(d), Some(w))],
+                1 => vec![(None, Some(d), None), (None, None, Some(w)), (Some(t), None, None)],
+                _ => vec![(Some(t), None, None), (None, None, Some(w)), (None, Some(d), None)],
+            };
+            for (fl, de, wi) in steps {
+                let r = upd(f, fl, de, wi, None);
+                if !r.is_ok() { return r; }
+            }
+            upd(f, None, None, None, Some(collector))
+        }
     }
 }
 
@@ -129,10 +156,10 @@ pub fn run_schedule(rec: &mut Rec, seed: u64, run: u64, line: &str) {
     let mut step = 0usize;
     for (phase, (pd, pw, pt)) in [("set", (d, w, t)), ("restored", (true, true, true))] {
         let dpre = f.w.digest();
-        let rs = set_flags(&mut f, &target, pd, pw, pt);
+        let rs = set_flags(&mut f, &target, pd, pw, pt, run);
         let dpost = f.w.digest();
         rec.emit(json!({"ev": "setflags", "run": run, "step": step, "actor": "owner",
-            "args": {"target": target, "flags": {"deposit": pd, "withdraw": pw, "third": pt}},
+            "args": {"target": target, "mode": run % 3, "flags": {"deposit": pd, "withdraw": pw, "third": pt}},
             "res": rs.tag(), "err": jerr(&rs.err()), "dpre": dpre, "dpost": dpost, "obs": {"flags": read_flags(&f, &target)}}));
         step += 1;
         for o in v["ops"].as_array().unwrap() {
